@@ -245,7 +245,28 @@ def new_error_contracts():
     return out
 
 
+def m_add_highlight(E, s, args, kw):
+    """Error.add_highlight(lineno, column, length=None, hint=None) / add_highlight(highlight)"""
+    err = args[0]
+    rest = args[1:]
+    if len(rest) == 1 and not kw:
+        h = rest[0]
+    else:
+        cls = E.repo.find_class(ERR, "Highlight")
+        names = ["lineno", "column", "length", "hint"]
+        attrs = {"length": None, "hint": None}
+        for n, v in zip(names, rest):
+            attrs[n] = v
+        attrs.update(kw)
+        h = s.alloc(ObjCell(cls, attrs))
+    cell = s.cell(err)
+    hl = cell.attrs["highlights"]
+    s.set_cell(hl, ListCell(s.cell(hl).items + (h,)))
+    return [(s, None)]
+
+
 def install(E):
+    E.models[ERR + ":Error.add_highlight"] = m_add_highlight
     E.models[ERR + ":Error.from_name"] = m_from_name
     E.attr_models["ErrorsGhost"] = errors_ghost_attr
 
